@@ -12,6 +12,7 @@ import (
 
 	"seehuhn.de/go/pdf"
 	"seehuhn.de/go/pdf/internal/debug/memfile"
+	"seehuhn.de/go/pdf/zzverif/ref/codecs"
 )
 
 // configurations ------------------------------------------------------------
@@ -170,6 +171,150 @@ func stmEncoding(v int, plain []byte) (filter, parms pdf.Object, raw []byte) {
 		parms = dicts
 	}
 	return filter, parms, raw
+}
+
+// filter-chain family -----------------------------------------------------------
+
+// chainPredictor is the predictor dictionary of the family: PNG "Up" on rows of
+// one byte, so that data of any length can pass through it.
+func chainPredictor() pdf.Dict {
+	return pdf.Dict{"Predictor": pdf.Integer(12), "Columns": pdf.Integer(1)}
+}
+
+// lzwEncode is LZWDecode's encoding with the default /EarlyChange 1 (reference
+// encoder of the framework, cross-checked against x/image/tiff/lzw).
+func lzwEncode(b []byte) []byte {
+	return codecs.LZWEncode(b, codecs.LZWOptions{EarlyChange: true})
+}
+
+// chainRaw returns the bytes stored for the decoded content plain: the last
+// filter of the chain is applied first when encoding.
+func chainRaw(cs chainSpec, plain []byte) []byte {
+	raw := plain
+	for i := len(cs.chain) - 1; i >= 0; i-- {
+		if cs.predictorAt(i) {
+			raw = pngUp(raw, 1)
+		}
+		switch cs.chain[i] {
+		case 'F':
+			raw = deflate(raw)
+		case 'L':
+			raw = lzwEncode(raw)
+		case 'H':
+			raw = hexEncode(raw)
+		}
+	}
+	return raw
+}
+
+// chainNames is the /Filter array of the chain.
+func chainNames(cs chainSpec) pdf.Array {
+	names := make(pdf.Array, len(cs.chain))
+	for i := range names {
+		names[i] = pdf.Name(chainLongNames[cs.chain[i]])
+	}
+	return names
+}
+
+// chainParms builds the /DecodeParms array (nil: no such entry). indirect is
+// called for the entries that are references: it stores the object and
+// returns the reference to it; with indirect == nil everything is inlined
+// (what the stream dictionary amounts to).
+func chainParms(cs chainSpec, indirect func(pdf.Object) (pdf.Object, error)) (pdf.Object, error) {
+	if cs.parms == "-" {
+		return nil, nil
+	}
+	parms := make(pdf.Array, len(cs.parms))
+	for i := range parms {
+		var v pdf.Object
+		switch cs.parms[i] {
+		case 'p', 'P':
+			v = chainPredictor()
+		case 'e', 'E':
+			v = pdf.Dict{}
+		}
+		if indirect != nil && strings.IndexByte("PEN", cs.parms[i]) >= 0 {
+			ref, err := indirect(v)
+			if err != nil {
+				return nil, err
+			}
+			v = ref
+		}
+		parms[i] = v
+	}
+	return parms, nil
+}
+
+// filterLayout reads /Filter and /DecodeParms of a stream dictionary the way
+// the standard defines them, whatever the spelling (a name or an array of
+// names; a dictionary or an array of dictionaries and nulls; each of them
+// direct or behind a reference): the filter names and, per filter, its
+// parameter dictionary (nil: none). ok = false: not of that form.
+func filterLayout(resolve func(pdf.Object) (pdf.Object, bool), d pdf.Dict) (names []pdf.Name, parms []pdf.Dict, ok bool) {
+	fv, ok := resolve(d["Filter"])
+	if !ok {
+		return nil, nil, false
+	}
+	switch f := fv.(type) {
+	case nil:
+	case pdf.Name:
+		names = []pdf.Name{f}
+	case pdf.Array:
+		for _, e := range f {
+			e, ok := resolve(e)
+			n, isName := e.(pdf.Name)
+			if !ok || !isName {
+				return nil, nil, false
+			}
+			names = append(names, n)
+		}
+	default:
+		return nil, nil, false
+	}
+	parms = make([]pdf.Dict, len(names))
+	pv, ok := resolve(d["DecodeParms"])
+	if !ok {
+		return nil, nil, false
+	}
+	switch p := pv.(type) {
+	case nil:
+	case pdf.Dict:
+		if len(names) != 1 {
+			return nil, nil, false
+		}
+		parms[0] = p
+	case pdf.Array:
+		for i := range names {
+			if i >= len(p) {
+				break
+			}
+			e, ok := resolve(p[i])
+			if !ok {
+				return nil, nil, false
+			}
+			switch ed := e.(type) {
+			case nil:
+			case pdf.Dict:
+				parms[i] = ed
+			default:
+				return nil, nil, false
+			}
+		}
+	default:
+		return nil, nil, false
+	}
+	return names, parms, true
+}
+
+// parmKind classifies a parameter dictionary like chainSpec.entryKind.
+func parmKind(d pdf.Dict) string {
+	switch {
+	case d == nil:
+		return "null"
+	case countNonNull(d) == 0:
+		return "empty"
+	}
+	return "dict"
 }
 
 // parm-reference family -------------------------------------------------------
@@ -449,6 +594,23 @@ func buildSource(g Graph, cfg string) (*source, error) {
 				}
 				d["Filter"], d["DecodeParms"] = f, p
 			}
+			if cs, ok := chainOf(o.V); ok {
+				// filter-chain family: names direct, the parameter entries direct
+				// or references to auxiliary objects, as the variant says
+				p, err := chainParms(cs, func(obj pdf.Object) (pdf.Object, error) {
+					ref := w.Alloc()
+					s.numAux++
+					return ref, w.Put(ref, obj)
+				})
+				if err != nil {
+					return nil, err
+				}
+				d["Filter"] = chainNames(cs)
+				if p != nil {
+					d["DecodeParms"] = p
+				}
+				raw = chainRaw(cs, plain)
+			}
 			switch o.V {
 			case stmFlate:
 				d["Filter"] = pdf.Name("FlateDecode")
@@ -539,6 +701,13 @@ func (s *source) verify() error {
 					return fmt.Errorf("object %d (%s): the parameter dictionary reads back as %v, want /%s %v inside", j, o, pd, parmKeys[ps.filter], s.itemObj(pIt[0], j, 0))
 				}
 			}
+			if cs, ok := chainOf(o.V); ok {
+				// the /DecodeParms array is there literally: nulls, direct
+				// dictionaries and references at the positions the variant names
+				if err := cs.verifyLiteral(stm.Dict); err != nil {
+					return fmt.Errorf("object %d (%s): %w", j, o, err)
+				}
+			}
 			var data []byte
 			want := plainData(j, o.V)
 			if stmRawOnly(o.V) {
@@ -571,6 +740,49 @@ func (s *source) verify() error {
 		got, err := r.Get(ref, true)
 		if err != nil || got != nil {
 			return fmt.Errorf("reference %v reads as %v, %v; want null", ref, got, err)
+		}
+	}
+	return nil
+}
+
+// verifyLiteral checks the stream dictionary of a fixture of the filter-chain
+// family as the Reader returns it.
+func (cs chainSpec) verifyLiteral(d pdf.Dict) error {
+	f, ok := d["Filter"].(pdf.Array)
+	if !ok || len(f) != len(cs.chain) {
+		return fmt.Errorf("/Filter reads back as %v", d["Filter"])
+	}
+	for i := range f {
+		if f[i] != pdf.Object(pdf.Name(chainLongNames[cs.chain[i]])) {
+			return fmt.Errorf("/Filter reads back as %v", d["Filter"])
+		}
+	}
+	if cs.parms == "-" {
+		if _, present := d["DecodeParms"]; present {
+			return fmt.Errorf("/DecodeParms reads back as %v, want none", d["DecodeParms"])
+		}
+		return nil
+	}
+	p, ok := d["DecodeParms"].(pdf.Array)
+	if !ok || len(p) != len(cs.parms) {
+		return fmt.Errorf("/DecodeParms reads back as %v", d["DecodeParms"])
+	}
+	for i := range p {
+		good := false
+		switch cs.parms[i] {
+		case 'n':
+			good = p[i] == nil
+		case 'p':
+			pd, isDict := p[i].(pdf.Dict)
+			good = isDict && len(pd) == 2 && pd["Predictor"] == pdf.Object(pdf.Integer(12)) && pd["Columns"] == pdf.Object(pdf.Integer(1))
+		case 'e':
+			pd, isDict := p[i].(pdf.Dict)
+			good = isDict && pd != nil && len(pd) == 0
+		default:
+			_, good = p[i].(pdf.Reference)
+		}
+		if !good {
+			return fmt.Errorf("/DecodeParms reads back as %v, position %d should be a %s", d["DecodeParms"], i, chainEntryNames[cs.parms[i]])
 		}
 	}
 	return nil
